@@ -66,6 +66,8 @@ def gen_comp(rng, depth=0):
         return ('rgb', rng.choice(['rgb', 'rgba', 'hsl']), rng.randint(0, 255), rng.randint(0, 100), rng.randint(0, 100))
     if k == 9:
         return ('urange', rng.choice(['U+0-7F', 'U+4??', 'U+26']))
+    if k == 10 and depth == 0 and rng.random() < 0.5:
+        return ('calc', rng.choice(['1px', '100%', '2em', '10']), rng.choice(['+', '-', '*']), rng.choice(['2px', '50%', '3']))
     return ('ident', gen_ident(rng))
 
 
@@ -300,6 +302,9 @@ def r_comp(sp, c):
         return sp.case(name) + '(' + sp.gap() + args + sp.gap() + ')'
     if k == 'urange':
         return c[1]
+    if k == 'calc':
+        # white space around the operator is part of the syntax of calc(); a comment does not stand for it
+        return 'calc(' + sp.ws() + c[1] + (sp.ws() or ' ') + c[2] + (sp.ws() or ' ') + c[3] + sp.ws() + ')'
     if k == 'sep':
         return c[1]
     raise ValueError(c)
@@ -432,7 +437,8 @@ def r_rule(sp, r):
         if extra:
             body = body[:-1] + (sp.gap() + ';' + sp.gap() if decls and not body[:-1].rstrip().endswith(';') else sp.gap()) + \
                 sp.gap().join(extra) + sp.gap() + '}'
-        return sp.case('@page') + ((sp.gap(need=True) + ':' + pseudo) if pseudo else '') + sp.gap() + body
+        # the pseudo-page name is case-insensitive in CSS (known finding C02-page-pseudo-case: not in cssutils)
+        return sp.case('@page') + ((sp.gap(need=True) + ':' + sp.case(pseudo)) if pseudo else '') + sp.gap() + body
     if k == 'fontface':
         return sp.case('@font-face') + sp.gap() + r_decls(sp, r[1])
     if k == 'unknown':
